@@ -14,6 +14,7 @@ reported lengths, lengths, error classes); `predicate` = the property evaluated 
 implementation's output with `spec` as oracle.
 """
 import contextlib
+import sys
 import itertools
 from fractions import Fraction
 
@@ -159,9 +160,12 @@ class Decoder:
         if len(self.rev) != len(labels):
             raise AssertionError("harness: value class encoding is not injective on this request")
         self.mask = (1 << (sum(FLOAT_FMT[self.dtype][:2]) + 1)) - 1 if self.dtype in FLOAT_FMT else None
-        pv = torch.tensor([float(value_frac(case))], dtype=torch.float64).to(getattr(torch, self.dtype))
-        if self.key(bits_of(pv, torch).tolist()[0]) in self.rev:
+        if self.key(self.pad_bits(value_frac(case), torch)) in self.rev:
             raise AssertionError("harness: the pad value is also the image of a label")
+
+    def pad_bits(self, v, torch):
+        pv = torch.tensor([float(v)], dtype=torch.float64).to(getattr(torch, self.dtype))
+        return bits_of(pv, torch).tolist()[0]
 
     def key(self, b):
         return b & self.mask if self.mask is not None else b
@@ -283,6 +287,26 @@ def value_frac(case):
     return Fraction(case["value"])
 
 
+def decollide(case):
+    """Generator-side: move the pad value of a value-class request off the images of its labels (0 is the
+    image of no label in any class). Uses no randomness; the request stays legal and in its stream."""
+    if not vclass_of(case) or "x" not in case or "value" not in case or case.get("malformed"):
+        return case
+    import torch
+    for v in (case["value"], 0, -1, "1/2"):
+        c = dict(case, value=v)
+        try:
+            Decoder(c, torch)
+        except AssertionError as e:
+            if "pad value is also the image" in str(e):
+                continue
+            return case        # another harness complaint: not this function's business
+        if v != case["value"]:
+            c["value_moved"] = str(case["value"])
+        return c
+    return case
+
+
 def value_obs(case):
     """what a cell holding the pad value looks like in an observation"""
     v = value_frac(case)
@@ -376,6 +400,12 @@ class C09(PropertyCheck):
 
     # ------------------------------------------------------------------ generators
     def cases(self, rng, tier):
+        """every generated request, with a pad value that is not the image of one of its labels (the
+        Decoder could not tell such a padding cell from a copied one: bfloat16 'mantissa' label 352 is 7.0)"""
+        for c in self._cases(rng, tier):
+            yield decollide(c)
+
+    def _cases(self, rng, tier):
         n = {"quick": 1, "thorough": 9, "search": 5}[tier]
         yield from self.edge_cases()
         gens = [self.gen_pad(rng, 1100 * n), self.gen_chunk(rng, 1300 * n), self.gen_masked(rng, 350 * n),
@@ -1494,6 +1524,11 @@ class C09(PropertyCheck):
             if impl.get("error") != spec["error"]:
                 fails.append((f"illegal request: documented {spec['error']}, got {_short(impl)}", None))
             return fails
+        if impl.get("error") == "AssertionError" and str(impl.get("message", "")).startswith("harness:"):
+            # the request is outside what the harness can encode (a shrinking step can produce that): not
+            # evidence about the library either way
+            sys.stderr.write(f"C09 harness: request skipped ({impl.get('message')})\n")
+            return []
         if "error" in impl:
             if (fn == "shift" and case["entry"] in ("module", "module_parent") and impl["error"] == "ValueError"
                     and "is not a float" in str(impl.get("message")) and not case.get("scalar_prop")):
